@@ -8,7 +8,11 @@ case = {"tree": node, "ops": [op, ...]}
        | ["P", [[tag, k, m, upd, skip], ...], node]          TransformedTargetForecaster (recording transformers)
        | ["M", sel|None, [[name, node], ...]]                MultiplexForecaster
        | ["S", [[name, node], ...], [tag, p, q]]             StackingForecaster (recording meta-regressor)
-  op   = ["fit", [[label, value], ...], fh|None] | ["upd", [[label, value], ...], bool] | ["pred", fh|None]
+  op   = ["fit", [[label, value], ...], fh|None, dt?, xdt?] | ["upd", [[label, value], ...], bool, dt?, xdt?] | ["pred", fh|None]
+         dt  = dtype of the series as handed to the real code: "f8" (default) | "f4" | "i8" | "i4"  (integer-valued data for i*)
+         xdt = None (default: no exogenous frame) | dtype of a 2-column exogenous frame on the same index
+         dt / xdt are a harness-only dimension: the values are the same numbers, so the model line does not mention them;
+         whatever dtype the series has, the parts must be handed exactly the same numbers.
 
 The real composites are built over the recording estimators of harness/recorders_C09.py; the
 observation is the output of every call (forecast labels+values / error kind) and, per call, the
@@ -49,13 +53,18 @@ OBLIGATIONS = [
 TRUSTED = ["hand-written model SkVerif/Model/Compose.lean of the four composites and of the _SktimeForecaster bookkeeping they call",
            "harness/recorders_C09.py (recording leaves; their Lean twins recF/recT/recG are part of the model)",
            "SingleWindowSplitter is the C01 model (Model/Split.lean)"]
-ASSUMPTIONS = ["integer labels, relative integer horizons, no exogenous data, no prediction intervals",
+ASSUMPTIONS = ["integer labels, relative integer horizons, no prediction intervals",
+               "the dtype of the series (float64/float32/int64/int32) and the presence/dtype of an exogenous frame are varied on the real side only: "
+               "the parts must be handed the same numbers whatever the dtype; what happens to the CONTENT of exogenous data is not modelled "
+               "(recording leaves ignore it; StackingForecaster.fit rejects it)",
                "series handed to fit have strictly increasing contiguous labels (stacking holds out by position, members forecast by label)",
                "joblib Parallel(n_jobs=None) runs members sequentially in list order (log order)",
                "member names are valid identifiers that do not clash with constructor arguments; only duplicate names are modelled as rejected",
                "OnlineEnsembleForecaster only without an ensemble algorithm (uniform weights)"]
-RULE = ("fixed-order small scope: every composite kind x member shapes to depth 2 x 9 histories x 4 horizons (quick: seed-rotated slice) "
-        "+ random composition trees to depth 3 with random dyadic series and histories of <= 6 calls "
+RULE = ("fixed-order small scope: every composite kind x member shapes to depth 2 x 10 histories x 4 horizons, the dtype of the series "
+        "(float64/float32/int64/int32, integer-valued data for integer dtypes) and of an optional exogenous frame rotating over the enumeration "
+        "(quick: seed-rotated slice) "
+        "+ random composition trees to depth 3 with random dyadic series of random dtype and histories of <= 6 calls "
         "+ malformed stream (duplicate names, unknown selection, bad aggfunc, calls before fit, empty / duplicate horizons, empty series, "
         "horizon longer than the series, stacking without / with a changed / with a non-positive horizon); distinct by driver line; "
         "non-trivial = composite root, no call failed, at least one forecast returned")
@@ -81,9 +90,30 @@ def is_exhaustive(tier):
 
 
 # ----------------------------------------------------------------------------- building the real objects
-def _S(pairs):
-    return pd.Series(np.array([v for _, v in pairs], dtype="float64"),
+_DT = {"f8": "float64", "f4": "float32", "i8": "int64", "i4": "int32"}
+
+
+def _S(pairs, dt="f8"):
+    return pd.Series(np.array([v for _, v in pairs], dtype="float64").astype(_DT[dt or "f8"]),
                      index=pd.Index(np.array([l for l, _ in pairs], dtype="int64")))
+
+
+def _X(pairs, xdt):
+    """exogenous frame on the same index (recorders ignore its content; its presence and dtype must not matter)"""
+    if xdt is None or not pairs:   # (an empty batch goes without a frame)
+        return None
+    n = len(pairs)
+    a = (np.arange(n, dtype="float64") * 3 % 7).astype(_DT[xdt])
+    b = (np.arange(n, dtype="float64") + 1).astype(_DT[xdt])
+    return pd.DataFrame({"x1": a, "x2": b}, index=pd.Index(np.array([l for l, _ in pairs], dtype="int64")))
+
+
+def _dt(op):
+    return op[3] if len(op) > 3 and op[3] else "f8"
+
+
+def _xdt(op):
+    return op[4] if len(op) > 4 else None
 
 
 _DECOY = [[0, 99.0], [1, 98.0]]
@@ -147,10 +177,10 @@ def fresh(node):
 def _apply(obj, op):
     """one call on a real forecaster; returns None or the forecast"""
     if op[0] == "fit":
-        obj.fit(_S(op[1]), fh=None if op[2] is None else list(op[2]))
+        obj.fit(_S(op[1], _dt(op)), X=_X(op[1], _xdt(op)), fh=None if op[2] is None else list(op[2]))
         return None
     if op[0] == "upd":
-        obj.update(_S(op[1]), update_params=bool(op[2]))
+        obj.update(_S(op[1], _dt(op)), X=_X(op[1], _xdt(op)), update_params=bool(op[2]))
         return None
     if op[0] == "pred":
         return obj.predict(None if op[1] is None else list(op[1]))
@@ -472,7 +502,7 @@ class _SpecPipeline:
     def __init__(self, node):
         self.node = node
 
-    def fit(self, y, fh=None):
+    def fit(self, y, X=None, fh=None):
         from sklearn.base import clone
         self.ts = [clone(build_tr(t)) for t in self.node[1]]
         self.f = fresh(self.node[2])
@@ -480,9 +510,9 @@ class _SpecPipeline:
         for t in self.ts:
             t.fit(z)
             z = t.transform(z)
-        self.f.fit(z, fh=fh)
+        self.f.fit(z, X=X, fh=fh)
 
-    def update(self, y, update_params=True):
+    def update(self, y, X=None, update_params=True):
         z = y
         for t in self.ts:
             if hasattr(t, "update"):
@@ -610,7 +640,7 @@ def _oracle_stack(node, ops, outs, logs):
                          "call %d: targets %s, held-out values %s" % (j, targets, [ydict.get(l) for l in window]))
                 # rows = forecasts of independently fitted members that saw only the data before the window
                 y_tr = [(l, v) for l, v in y if l <= c]
-                hold = [observe(fresh(ch), [["fit", y_tr, fh], ["pred", None]]) for _, ch in members]
+                hold = [observe(fresh(ch), [["fit", y_tr, fh] + list(op[3:]), ["pred", None]]) for _, ch in members]
                 if all(len(h[0]) == 2 for h in hold):
                     exp_rows = [list(r) for r in zip(*[[v for _, v in h[0][1]] for h in hold])]
                     if not _rows_close(rows, exp_rows):
@@ -622,7 +652,7 @@ def _oracle_stack(node, ops, outs, logs):
                              "call %d: members handed %s, expected %s" % (j, pre, exp_pre))
             # members refitted on all data
             ref = [fresh(ch) for _, ch in members]
-            full = [observe(r, [["fit", y, fh]]) for r in ref]
+            full = [observe(r, [["fit", y, fh] + list(op[3:])]) for r in ref]
             exp_post = [e for f in full for e in (f[1][0] if f[1] else [])]
             if not _log_close(post, exp_post):
                 fail("StackingForecaster.fit:members-not-refitted-on-all-data", "call %d: after the meta-regressor members were handed %s, expected %s" % (j, post, exp_post))
@@ -746,6 +776,10 @@ def features(c, real_out):
         f.append("err=" + real_out.split(";")[-1])
     if c["tree"][0] == "E":
         f.append("agg=" + str(c["tree"][1]))
+    dts = sorted({_dt(o) for o in c["ops"] if o[0] in ("fit", "upd")})
+    f.append("y-dtype=" + "+".join(dts))
+    if any(_xdt(o) for o in c["ops"] if o[0] in ("fit", "upd")):
+        f.append("with-X")
     return f
 
 
@@ -812,6 +846,27 @@ def _retag(node, tg=None):
     return ["S", ms, [tg("g")] + list(node[2][1:])]
 
 
+_DTS = ["f8", "i8", "f4", "i4"]
+
+
+def _with_dtypes(case, dt, dtu=None, xdt=None):
+    """the same case with the series handed over as dtype `dt` (update batches: `dtu`) and, unless the tree contains a
+    StackingForecaster (its fit rejects exogenous data), a 2-column exogenous frame of dtype `xdt`.
+    Integer dtypes get integer-valued data."""
+    dtu = dtu or dt
+    ints = dt.startswith("i") or dtu.startswith("i")
+    if _has_stack(case["tree"]):
+        xdt = None
+    ops = []
+    for o in case["ops"]:
+        if o[0] in ("fit", "upd"):
+            pairs = [[l, float(round(v)) if ints else v] for l, v in o[1]]
+            ops.append([o[0], pairs, o[2], dt if o[0] == "fit" else dtu, xdt])
+        else:
+            ops.append(o)
+    return {"tree": case["tree"], "ops": ops}
+
+
 def _has_stack(node):
     return node[0] == "S" or any(_has_stack(ch) for ch in _children(node))
 
@@ -863,6 +918,7 @@ def _history(rng, need_fh_at_fit):
 
 _Y6 = [[5, 1.0], [6, 2.0], [7, 4.0], [8, 8.0], [9, 16.0], [10, 32.0]]
 _Y5 = [[0, 3.0], [1, -1.5], [2, 0.25], [3, 7.0], [4, 2.0]]
+_Y7 = [[0, 3.0], [1, 5.0], [2, 4.0], [3, 8.0], [4, 9.0], [5, 7.0], [6, 12.0]]
 
 
 def _small_scope():
@@ -896,6 +952,13 @@ def _small_scope():
     trees.append(["S", [["a", ["E", "mean", [["x", L("fd")], ["y", lc]]]], ["b", lb]], G])
     trees.append(["E", "mean", [["a", ["S", [["x", L("fd")], ["y", lc]], G]], ["b", lb]]])
     trees.append(["E", "max", [["a", pipe2], ["b", ens2]]])
+    # members whose forecasts are not whole numbers even on integer data ("mean"-like: sum/4, half the last value, drift 1/2)
+    lm, lh = L("fm", 0.0, 0.25, 0.0, 0.5), L("fh", 0.5, 0.0, 0.0, 0.5)
+    trees.append(["S", [["a", lm], ["b", lh]], G])
+    trees.append(["S", [["a", lm], ["b", ["P", [["te", 0.5, 0.5, True, False]], lh]]], ["g", 0.5, 1.0]])
+    trees.append(["E", "mean", [["a", lm], ["b", lh], ["c", la]]])
+    trees.append(["P", [["te", 0.5, 0.5, True, False]], lm])
+    trees.append(["M", "b", [["a", la], ["b", lm]]])
     u1, u2, u3 = [[11, 64.0], [12, 128.0]], [[13, -3.0]], [[10, 5.0], [11, 6.0]]
     hists = []
     for fh in ([1], [1, 2], [2, 3], [1, 3]):
@@ -909,8 +972,17 @@ def _small_scope():
             [["fit", _Y6, fh], ["upd", u1, True], ["fit", _Y5, fh], ["pred", None]],
             [["fit", _Y6, None], ["pred", fh]],
             [["fit", _Y6, None], ["pred", fh], ["upd", u1, True], ["pred", None]],
+            [["fit", _Y7, fh], ["pred", None], ["upd", [[7, 13.0], [8, 11.0]], True], ["pred", None]],
         ]
-    return [{"tree": _retag(t), "ops": h} for t in trees for h in hists]
+    cases = [{"tree": _retag(t), "ops": h} for t in trees for h in hists]
+    # dtype of the series / of the exogenous frame rotates over the enumeration (fixed order)
+    out = []
+    for i, c in enumerate(cases):
+        dt = _DTS[i % 4]
+        dtu = _DTS[(i // 4) % 4] if i % 5 == 0 else dt
+        xdt = [None, "f8", None, "i8", None, "f4"][i % 6]
+        out.append(_with_dtypes(c, dt, dtu, xdt))
+    return out
 
 
 def _malformed(rng):
@@ -983,7 +1055,10 @@ def gen_cases(tier, rng):
         depth = rng.choice([1, 1, 2, 2, 2, 3, 3])
         t = _tree(rng, depth, tg)
         ops = _history(rng, _has_stack(t))
-        cases.append({"tree": t, "ops": ops})
+        dt = rng.choice(["f8", "f8", "i8", "f4", "i4"])
+        dtu = rng.choice(_DTS) if rng.random() < 0.15 else dt
+        xdt = rng.choice(_DTS) if rng.random() < 0.35 else None
+        cases.append(_with_dtypes({"tree": t, "ops": ops}, dt, dtu, xdt))
     return cases
 
 
@@ -1023,5 +1098,5 @@ def shrink(c):
     for i, op in enumerate(ops):
         if op[0] in ("fit", "upd") and len(op[1]) > 1:
             o2 = list(ops)
-            o2[i] = [op[0], op[1][:-1], op[2]]
+            o2[i] = [op[0], op[1][:-1], op[2]] + list(op[3:])
             yield {"tree": t, "ops": o2}
